@@ -81,16 +81,15 @@ def handle (toks : List String) : String :=
     | some g, some cs, some ps =>
       if g.ncols = 0 then "err:div0" else
       match cVoronoi distF g cs ps with
-      | .ok w => "ok " ++ fmtFloatList w
+      | .ok w => "ok " ++ fmtList (w.map fmtOptFloat)
       | .error e => errName e
     | _, _, _ => "bad-op"
   | ["vorQ", nr, nc, xll, yll, csz, cells, pts] =>
     match geomQ? nr nc xll yll csz, parseIntList? cells, pairs? ratTok? pts with
     | some g, some cs, some ps =>
       if g.ncols = 0 then "err:div0" else
-      if cs.isEmpty then "err:nocells" else
       match cVoronoi distQ g cs ps with
-      | .ok w => "ok " ++ fmtRatList w
+      | .ok w => "ok " ++ fmtList (w.map fun o => match o with | some r => fmtRat r | none => "nan")
       | .error e => errName e
     | _, _, _ => "bad-op"
   | _ => "bad-op"
